@@ -313,6 +313,81 @@ class TargetClassName(Ob):
         return None if list(result) == [a["full"]] else "target class %r resolved to %r, expected %r" % (a["spelled"], result, a["full"])
 
 
+_UNICODE_SPACES = [0x85, 0xA0, 0x1680, 0x2028, 0x2029, 0x202F, 0x205F, 0x3000] + list(range(0x2000, 0x200B))
+
+
+def c_iri_nospace(c):
+    """IRIREF characters that str.strip() does not treat as white space (a line of a text file cannot end in them unnoticed)."""
+    return z3.And(c_iri(c), *[c != w for w in _UNICODE_SPACES])
+
+
+class _FakeStream:
+    def __init__(self, lines):
+        self._lines = lines
+
+    def __enter__(self):
+        return iter(self._lines)
+
+    def __exit__(self, *a):
+        return False
+
+
+class TargetClassesFile(Ob):
+    """read_target_classes_from_file: one class per line in full / <bracketed> / prefixed spelling; surrounding blanks and empty lines are ignored; every other
+    character of the line - '#' included - belongs to the name.  Symbolic run: the module's `open` is replaced by a stream over the symbolic lines (stub);
+    concrete runs write a real temporary file."""
+    functions = ["shexer.utils.factories.triple_yielders_factory.read_target_classes_from_file", "shexer.utils.target_elements.tune_target_classes_if_needed"]
+    PMAP = {"e": "http://e.org/", "ex": EXNS, "on": "http://ex.org/onto#"}
+
+    def __init__(self, ns, style, k, layout):
+        self.ns, self.style, self.k, self.layout = ns, style, k, layout
+        self.name = "target_classes_file/%s/%s/k=%d/%s" % (ns, style, k, layout)
+
+    def build(self, ex):
+        cs = free(ex, "l", self.k, c_local if self.style == "prefixed" else c_iri_nospace)
+        full = sstr(self.ns, cs)
+        prefix = [p for p, n in self.PMAP.items() if n == self.ns]
+        spelled = {"full": full, "brackets": "<" + full + ">", "prefixed": sstr((prefix[0] if prefix else "ex") + ":", cs)}[self.style]
+        if self.style == "prefixed" and not prefix:
+            raise HarnessError("no prefix for %s" % self.ns)
+        other = "http://ex.org/Other"
+        if self.layout == "alone":
+            lines, want = [spelled + "\n"], [full]
+        elif self.layout == "no-newline":
+            lines, want = ["<" + other + ">\n", spelled], [other, full]
+        elif self.layout == "padded":
+            lines, want = ["\n", "  " + spelled + " \t\n", "   \n", other + "\n"], [full, other]
+        else:
+            raise HarnessError(self.layout)
+        return dict(lines=lines, want=want, pmap=dict(self.PMAP))
+
+    def call(self, a):
+        from shexer.utils.factories import triple_yielders_factory as mod
+        if any(isinstance(l, SymStr) for l in a["lines"]):
+            mod.open = lambda path, mode="r": _FakeStream(a["lines"])
+            try:
+                return mod.read_target_classes_from_file("symbolic.txt", a["pmap"])
+            finally:
+                del mod.open
+        import os
+        import tempfile
+        fd, path = tempfile.mkstemp(suffix=".txt")
+        try:
+            with os.fdopen(fd, "w", encoding="utf-8", newline="") as out:
+                out.write("".join(a["lines"]))
+            return mod.read_target_classes_from_file(path, a["pmap"])
+        finally:
+            os.unlink(path)
+
+    def bad(self, a, result):
+        if len(result) != len(a["want"]):
+            return True
+        return _or([neg(eq(r, w)) for r, w in zip(result, a["want"])])
+
+    def check(self, a, result):
+        return None if list(result) == list(a["want"]) else "target classes file %r read as %r, expected %r" % (a["lines"], result, a["want"])
+
+
 class LongestCommonPrefix(Ob):
     functions = ["shexer.utils.uri.longest_common_prefix"]
 
@@ -584,6 +659,11 @@ def obligations(prop, tier):
         for style in ("full", "brackets", "prefixed", "prefixed-nested"):
             for k in ((1, 2) if q else (1, 2, 3, 4)):
                 out.append(TargetClassName(style, k))
+        for ns in (EXNS, "http://ex.org/onto#"):
+            for style in ("full", "brackets", "prefixed"):
+                for layout in ("alone", "no-newline", "padded"):
+                    for k in ((1, 2) if q else (1, 2, 3)):
+                        out.append(TargetClassesFile(ns, style, k, layout))
         ks = (1,) if q else (1, 2, 3)
         for k in ks:
             for label in ("full", "prefixed"):
